@@ -15,62 +15,72 @@ open Cppcms Cppcms.C07
 structure changes) -/
 
 /-- operations with a single segment: guard mode and the segment -/
-def simpleOp : Op → Option (Mode × Action)
-  | .fetch _ _ => none
-  | .stats => some (.shared, .readStats)
+def simpleOp : XOp → Option (Mode × Action)
+  | .cache (.fetch _ _) => none
+  | .cache .stats => some (.shared, .readStats)
   | _ => some (.exclusive, .body)
 
 theorem prog_fetch (now : Time) (k : Key) :
-    Gen.prog (methodOf (.fetch now k)) =
+    Gen.prog (methodOf (.cache (.fetch now k))) =
       [.acq .access .shared, .act .lookup, .acq .lru .exclusive, .act .splice, .rel .lru, .act .copyOut, .rel .access] := rfl
 
-theorem prog_simple {op : Op} {m : Mode} {a : Action} (h : simpleOp op = some (m, a)) :
+theorem prog_simple {op : XOp} {m : Mode} {a : Action} (h : simpleOp op = some (m, a)) :
     Gen.prog (methodOf op) = [.acq .access m, .act a, .rel .access] := by
-  cases op <;> simp [simpleOp] at h <;> obtain ⟨rfl, rfl⟩ := h <;> rfl
+  rcases op with (op | _ | _)
+  · cases op <;> simp [simpleOp] at h <;> obtain ⟨rfl, rfl⟩ := h <;> rfl
+  · simp [simpleOp] at h; obtain ⟨rfl, rfl⟩ := h; rfl
+  · simp [simpleOp] at h; obtain ⟨rfl, rfl⟩ := h; rfl
 
-theorem simpleOp_fetch_or (op : Op) : (∃ now k, op = .fetch now k) ∨ ∃ m a, simpleOp op = some (m, a) := by
-  cases op <;> simp [simpleOp]
+theorem simpleOp_fetch_or (op : XOp) : (∃ now k, op = .cache (.fetch now k)) ∨ ∃ m a, simpleOp op = some (m, a) := by
+  rcases op with (op | _ | _)
+  · cases op <;> simp [simpleOp]
+  · simp [simpleOp]
+  · simp [simpleOp]
 
 /-! ### sequential cache facts -/
 
-theorem step_fetch_none {s : State} {now : Time} {k : Key} (h : alookup k s.primary = none) :
-    C07.step s (.fetch now k) = (s, .miss) := by
-  simp [C07.step, C07.fetch, h]
+theorem step_fetch_none {s : XState} {now : Time} {k : Key} (h : alookup k s.cache.primary = none) :
+    xstep s (.cache (.fetch now k)) = (s, .cache .miss) := by
+  simp [xstep, C07.step, C07.fetch, h]
 
-theorem step_fetch_expired {s : State} {now : Time} {k : Key} {cont : Container}
-    (h : alookup k s.primary = some cont) (he : C07.Gen.fetchExpired cont.deadline now = true) :
-    C07.step s (.fetch now k) = (s, .miss) := by
-  simp [C07.step, C07.fetch, h, he]
+theorem step_fetch_expired {s : XState} {now : Time} {k : Key} {cont : Container}
+    (h : alookup k s.cache.primary = some cont) (he : C07.Gen.fetchExpired cont.deadline now = true) :
+    xstep s (.cache (.fetch now k)) = (s, .cache .miss) := by
+  simp [xstep, C07.step, C07.fetch, h, he]
 
-theorem step_fetch_live {s : State} {now : Time} {k : Key} {cont : Container}
-    (h : alookup k s.primary = some cont) (he : C07.Gen.fetchExpired cont.deadline now = false) :
-    C07.step s (.fetch now k) =
-      ({ s with lru := k :: s.lru.erase k }, .hit cont.data cont.trigs cont.deadline cont.gen) := by
-  simp [C07.step, C07.fetch, h, he]
+theorem step_fetch_live {s : XState} {now : Time} {k : Key} {cont : Container}
+    (h : alookup k s.cache.primary = some cont) (he : C07.Gen.fetchExpired cont.deadline now = false) :
+    xstep s (.cache (.fetch now k)) =
+      ({ s with cache := { s.cache with lru := k :: s.cache.lru.erase k } },
+       .cache (.hit cont.data cont.trigs cont.deadline cont.gen)) := by
+  simp [xstep, C07.step, C07.fetch, h, he]
 
-theorem run_snoc (s : State) (ops : List Op) (op : Op) :
-    C07.run s (ops ++ [op]) = (C07.step (C07.run s ops) op).1 := by
-  simp [C07.run, List.foldl_append]
+theorem run_snoc (s : XState) (ops : List XOp) (op : XOp) :
+    xrun s (ops ++ [op]) = (xstep (xrun s ops) op).1 := by
+  simp [xrun, List.foldl_append]
 
-theorem seqOuts_snoc (s : State) (ops : List Op) (op : Op) :
-    seqOuts s (ops ++ [op]) = seqOuts s ops ++ [(C07.step (C07.run s ops) op).2] := by
+theorem seqOuts_snoc (s : XState) (ops : List XOp) (op : XOp) :
+    seqOuts s (ops ++ [op]) = seqOuts s ops ++ [(xstep (xrun s ops) op).2] := by
   induction ops generalizing s with
-  | nil => simp [seqOuts, C07.run]
+  | nil => simp [seqOuts, xrun]
   | cons o os ih =>
     simp only [List.cons_append, seqOuts, ih]
-    simp [C07.run]
+    simp [xrun]
 
 /-! ### steps in normal form -/
 
 /-- a step that enters the running operation in the hook log and applies its sequential effect -/
-def linStep (c : Config) (t : Nat) (th : Thread) (op : Op) (th' : Thread) : Config :=
-  { s := (C07.step c.s op).1, threads := c.threads.set t th', clock := c.clock + 1, log := c.hook t th op }
+def linStep (c : Config) (t : Nat) (th : Thread) (op : XOp) (th' : Thread) : Config :=
+  { s := (xstep c.s op).1, threads := c.threads.set t th', clock := c.clock + 1, log := c.hook t th op }
 
-theorem execAct_simple {op : Op} {m : Mode} {a : Action} (h : simpleOp op = some (m, a))
+theorem execAct_simple {op : XOp} {m : Mode} {a : Action} (h : simpleOp op = some (m, a))
     (c : Config) (t : Nat) (th : Thread) (rest : List Instr) :
     execAct c t th op a rest =
-      linStep c t th op { th with code := rest, ret := some (.ok (C07.step c.s op).2) } := by
-  cases op <;> simp [simpleOp] at h <;> obtain ⟨rfl, rfl⟩ := h <;> rfl
+      linStep c t th op { th with code := rest, ret := some (.ok (xstep c.s op).2) } := by
+  rcases op with (op | _ | _)
+  · cases op <;> simp [simpleOp] at h <;> obtain ⟨rfl, rfl⟩ := h <;> rfl
+  · simp [simpleOp] at h; obtain ⟨rfl, rfl⟩ := h; rfl
+  · simp [simpleOp] at h; obtain ⟨rfl, rfl⟩ := h; rfl
 
 /-! ### the invariant -/
 
@@ -78,48 +88,48 @@ theorem execAct_simple {op : Op} {m : Mode} {a : Action} (h : simpleOp op = some
 def NotLind (log : List Lin) (t n : Nat) : Prop := ∀ e ∈ log, ¬ (e.tid = t ∧ e.idx = n)
 
 /-- thread `t`'s `n`-th operation `op`, invoked at `inv`, is in the log with claimed answer `out` -/
-def Lind (log : List Lin) (t n : Nat) (op : Op) (out : Out) (inv : Nat) : Prop :=
+def Lind (log : List Lin) (t n : Nat) (op : XOp) (out : XOut) (inv : Nat) : Prop :=
   ∃ e ∈ log, e.tid = t ∧ e.idx = n ∧ e.op = op ∧ e.out = out ∧ inv < e.stamp
 
 /-- `primary` holds an unexpired entry under `k`, and `out` is the hit a fetch of it returns -/
-def Live (s : State) (now : Time) (k : Key) (out : Out) : Prop :=
-  ∃ cont, alookup k s.primary = some cont ∧ C07.Gen.fetchExpired cont.deadline now = false ∧
-    out = .hit cont.data cont.trigs cont.deadline cont.gen
+def Live (s : XState) (now : Time) (k : Key) (out : XOut) : Prop :=
+  ∃ cont, alookup k s.cache.primary = some cont ∧ C07.Gen.fetchExpired cont.deadline now = false ∧
+    out = .cache (.hit cont.data cont.trigs cont.deadline cont.gen)
 
-inductive Phase (s : State) (log : List Lin) (t : Nat) (th : Thread) : Prop
+inductive Phase (s : XState) (log : List Lin) (t : Nat) (th : Thread) : Prop
   | idle (hc : th.cur = none) (hcode : th.code = []) (hheld : th.held = [])
-  | f0 (now : Time) (k : Key) (hc : th.cur = some (.fetch now k))
+  | f0 (now : Time) (k : Key) (hc : th.cur = some (.cache (.fetch now k)))
       (hcode : th.code = [.acq .access .shared, .act .lookup, .acq .lru .exclusive, .act .splice, .rel .lru, .act .copyOut, .rel .access])
       (hheld : th.held = []) (hn : NotLind log t th.done.length)
-  | f1 (now : Time) (k : Key) (hc : th.cur = some (.fetch now k))
+  | f1 (now : Time) (k : Key) (hc : th.cur = some (.cache (.fetch now k)))
       (hcode : th.code = [.act .lookup, .acq .lru .exclusive, .act .splice, .rel .lru, .act .copyOut, .rel .access])
       (hheld : th.held = [(.access, .shared)]) (hn : NotLind log t th.done.length)
-  | f2 (now : Time) (k : Key) (out : Out) (hc : th.cur = some (.fetch now k))
+  | f2 (now : Time) (k : Key) (out : XOut) (hc : th.cur = some (.cache (.fetch now k)))
       (hcode : th.code = [.acq .lru .exclusive, .act .splice, .rel .lru, .act .copyOut, .rel .access])
       (hheld : th.held = [(.access, .shared)]) (hp : th.ptr = some k) (hl : Live s now k out)
       (hn : NotLind log t th.done.length)
-  | f3 (now : Time) (k : Key) (out : Out) (hc : th.cur = some (.fetch now k))
+  | f3 (now : Time) (k : Key) (out : XOut) (hc : th.cur = some (.cache (.fetch now k)))
       (hcode : th.code = [.act .splice, .rel .lru, .act .copyOut, .rel .access])
       (hheld : th.held = [(.lru, .exclusive), (.access, .shared)]) (hp : th.ptr = some k) (hl : Live s now k out)
       (hn : NotLind log t th.done.length)
-  | f4 (now : Time) (k : Key) (out : Out) (hc : th.cur = some (.fetch now k))
+  | f4 (now : Time) (k : Key) (out : XOut) (hc : th.cur = some (.cache (.fetch now k)))
       (hcode : th.code = [.rel .lru, .act .copyOut, .rel .access])
       (hheld : th.held = [(.lru, .exclusive), (.access, .shared)]) (hp : th.ptr = some k) (hl : Live s now k out)
-      (hlin : Lind log t th.done.length (.fetch now k) out th.inv)
-  | f5 (now : Time) (k : Key) (out : Out) (hc : th.cur = some (.fetch now k))
+      (hlin : Lind log t th.done.length (.cache (.fetch now k)) out th.inv)
+  | f5 (now : Time) (k : Key) (out : XOut) (hc : th.cur = some (.cache (.fetch now k)))
       (hcode : th.code = [.act .copyOut, .rel .access])
       (hheld : th.held = [(.access, .shared)]) (hp : th.ptr = some k) (hl : Live s now k out)
-      (hlin : Lind log t th.done.length (.fetch now k) out th.inv)
-  | s0 (op : Op) (m : Mode) (a : Action) (hs : simpleOp op = some (m, a)) (hc : th.cur = some op)
+      (hlin : Lind log t th.done.length (.cache (.fetch now k)) out th.inv)
+  | s0 (op : XOp) (m : Mode) (a : Action) (hs : simpleOp op = some (m, a)) (hc : th.cur = some op)
       (hcode : th.code = [.acq .access m, .act a, .rel .access]) (hheld : th.held = [])
       (hn : NotLind log t th.done.length)
-  | s1 (op : Op) (m : Mode) (a : Action) (hs : simpleOp op = some (m, a)) (hc : th.cur = some op)
+  | s1 (op : XOp) (m : Mode) (a : Action) (hs : simpleOp op = some (m, a)) (hc : th.cur = some op)
       (hcode : th.code = [.act a, .rel .access]) (hheld : th.held = [(.access, m)])
       (hn : NotLind log t th.done.length)
-  | rel1 (op : Op) (m : Mode) (out : Out) (hc : th.cur = some op)
+  | rel1 (op : XOp) (m : Mode) (out : XOut) (hc : th.cur = some op)
       (hcode : th.code = [.rel .access]) (hheld : th.held = [(.access, m)]) (hret : th.ret = some (.ok out))
       (hlin : Lind log t th.done.length op out th.inv)
-  | fin (op : Op) (out : Out) (hc : th.cur = some op)
+  | fin (op : XOp) (out : XOut) (hc : th.cur = some op)
       (hcode : th.code = []) (hheld : th.held = []) (hret : th.ret = some (.ok out))
       (hlin : Lind log t th.done.length op out th.inv)
 
@@ -136,8 +146,8 @@ structure TOk (c : Config) (t : Nat) (th : Thread) : Prop where
   done_ok : ∀ r ∈ th.done, DoneOk c.clock c.log t th.done.length r
   done_idx : th.done.Pairwise (fun a b => b.idx < a.idx)
 
-structure Inv (s₀ : State) (c : Config) : Prop where
-  state_eq : c.s = C07.run s₀ (c.log.reverse.map (·.op))
+structure Inv (s₀ : XState) (c : Config) : Prop where
+  state_eq : c.s = xrun s₀ (c.log.reverse.map (·.op))
   legal : seqOuts s₀ (c.log.reverse.map (·.op)) = c.log.reverse.map (·.out)
   stamps : ∀ e ∈ c.log, e.stamp < c.clock
   sorted : c.log.Pairwise (fun a b => b.stamp < a.stamp)
@@ -158,21 +168,21 @@ theorem NotLind.mono {log log' : List Lin} {t n : Nat} (h : NotLind log t n)
   · exact h e hin hid
   · exact hnew e he hin hid.1
 
-theorem Lind.mono {log log' : List Lin} {t n : Nat} {op : Op} {out : Out} {inv : Nat}
+theorem Lind.mono {log log' : List Lin} {t n : Nat} {op : XOp} {out : XOut} {inv : Nat}
     (h : Lind log t n op out inv) (hsub : ∀ e ∈ log, e ∈ log') : Lind log' t n op out inv := by
   obtain ⟨e, he, h'⟩ := h
   exact ⟨e, hsub e he, h'⟩
 
-theorem Live.of_primary_eq {s s' : State} {now : Time} {k : Key} {out : Out} (h : Live s now k out)
-    (hp : s'.primary = s.primary) : Live s' now k out := by
+theorem Live.of_primary_eq {s s' : XState} {now : Time} {k : Key} {out : XOut} (h : Live s now k out)
+    (hp : s'.cache.primary = s.cache.primary) : Live s' now k out := by
   obtain ⟨cont, h1, h2, h3⟩ := h
   exact ⟨cont, by rw [hp]; exact h1, h2, h3⟩
 
 /-- Another thread's phase survives a step that only appends log entries of other threads and
 either leaves `primary` alone or is made while this thread holds no guard on `access_lock`. -/
-theorem Phase.frame {s s' : State} {log log' : List Lin} {t : Nat} {th : Thread}
+theorem Phase.frame {s s' : XState} {log log' : List Lin} {t : Nat} {th : Thread}
     (h : Phase s log t th)
-    (hs : s'.primary = s.primary ∨ ∀ g ∈ th.held, g.1 ≠ LockId.access)
+    (hs : s'.cache.primary = s.cache.primary ∨ ∀ g ∈ th.held, g.1 ≠ LockId.access)
     (hsub : ∀ e ∈ log, e ∈ log')
     (hnew : ∀ e ∈ log', e ∉ log → e.tid ≠ t) : Phase s' log' t th := by
   have live : ∀ {now k out}, Live s now k out → (LockId.access, Mode.shared) ∈ th.held → Live s' now k out := by
@@ -205,7 +215,7 @@ theorem DoneOk.mono {clock clock' : Nat} {log log' : List Lin} {t n n' : Nat} {r
 
 /-- an unchanged thread stays fine across such a step -/
 theorem TOk.frame {c c' : Config} {t : Nat} {th : Thread} (h : TOk c t th)
-    (hs : c'.s.primary = c.s.primary ∨ ∀ g ∈ th.held, g.1 ≠ LockId.access)
+    (hs : c'.s.cache.primary = c.s.cache.primary ∨ ∀ g ∈ th.held, g.1 ≠ LockId.access)
     (hsub : ∀ e ∈ c.log, e ∈ c'.log)
     (hnew : ∀ e ∈ c'.log, e ∉ c.log → e.tid ≠ t)
     (hclock : c.clock ≤ c'.clock) : TOk c' t th :=
